@@ -1,4 +1,5 @@
 """C08 — the stored group record mirrors the MLS state and routes events to it (structural clauses)."""
+import re
 from ir import last_seg
 import analysis as A
 import common as K
@@ -209,17 +210,82 @@ def clause_index(prog, rep, sch):
                   "the memory backend accepts a nostr_group_id that belongs to another group", f.loc())
 
 
+UNWRAP = ("ok", "branch", "unwrap", "expect", "ok_or", "ok_or_else", "map_err", "unwrap_or_default", "clone", "cloned")
+
+
+def record_sources(prog, f, local):
+    """copy provenance of a stored group record, looking through Result / Option plumbing: (producing calls, own parameters, built in place?)"""
+    calls, params, built, seen, todo = [], [], False, set(), [local]
+    while todo:
+        l = todo.pop()
+        if l in seen:
+            continue
+        seen.add(l)
+        pr = A.producers(prog, f, l, scope=set(), max_frames=0)
+        params += pr["params"]
+        for fn_, bb_, k_ in pr["consts"]:
+            if isinstance(k_, dict) and k_.get("agg") and last_seg(k_["agg"]) == "Group":
+                built = True
+        for bb, st in f.stmts():
+            if st["d"] == [l] and st.get("k") == "agg" and last_seg(st.get("adt")) == "Group":
+                built = True
+                for o in st.get("o", []):
+                    if "p" in o:
+                        todo.append(o["p"][0])
+        for c in pr["calls"]:
+            if c.name in UNWRAP and c.args and "p" in c.args[0]:
+                todo.append(c.args[0]["p"][0])
+            else:
+                calls.append(c)
+    return calls, params, built
+
+
+def clause_no_stale_overwrite(prog, rep, syncs):
+    """after the sync has rewritten the stored record, a later save in the same function must start from a record re-read *after*
+    the sync; saving a copy loaded before the merge (a parameter, an older local) silently undoes the sync"""
+    load = A.ReachCache(prog, lambda c: K.is_storage_trait_call(c, "find_group_by_mls_group_id"))
+    save = A.ReachCache(prog, lambda c: K.is_storage_trait_call(c, "save_group"))
+    syncs = set(x.path for x in syncs)
+    n = 0
+    for f in prog.nontest_fns(("mdk_core",)):
+        S = [c for c in f.live_calls() if any(t.path in syncs for t in prog.call_targets(c))]
+        if not S or f.path in syncs:
+            continue
+        after = set()
+        for s_ in S:
+            if "to" in s_.t:
+                after |= f.reachable_from(s_.t["to"])
+        for w in f.live_calls():
+            if w in S or not save.call(w) or w.bb not in after or any(t.path in syncs for t in prog.call_targets(w)):
+                continue
+            recs = [a for a in w.args if "p" in a and re.search(r"groups::types::Group(?![A-Za-z])", f.locals[a["p"][0]])]
+            if not recs:
+                continue
+            n += 1
+            calls, params, built = record_sources(prog, f, recs[0]["p"][0])
+            fresh = [c for c in calls if load.call(c) and not save.call(c) and c.bb in after]
+            stale = [c for c in calls if load.call(c) and c.bb not in after]
+            ok = bool(fresh) and not stale and not any(g is f for g, l in params)
+            rep.check(ok, "sync-after-merge", "%s/no-stale-overwrite/%s" % (prog.fns.get(f.root, f).label(), w.name),
+                      "the record saved after the sync was re-read after it",
+                      "after sync_group_metadata_from_mls the function saves a group record that was not re-read after the sync (sources: %s%s): "
+                      "the stored epoch / group data fall back to the pre-merge values" % (sorted(set(c.name for c in calls)) or "none", ", parameter" if params else ""), w.loc())
+    rep.floor("sync-after-merge", "group saves following a sync in the same function", n, 2)
+
+
 def run(ctx, rep):
     prog = ctx.prog()
     sch = sqlmod.Schema()
     rep.fns_analysed = len(K.core_scope(prog))
     rep.clause("C08.1 every MLS merge is followed on every Ok path by the metadata sync (or the Inactive save on eviction / the creator's own save)")
+    rep.clause("C08.1b a group record saved after the sync in the same function was re-read after the sync (no stale overwrite)")
     rep.clause("C08.2 the sync copies epoch, name, description, admins, image_hash/key/nonce, nostr_group_id and relays from the current MLS state")
     rep.clause("C08.3 outgoing wrappers carry hex(stored nostr_group_id); incoming events are looked up by their h tag")
     rep.clause("C08.4 routing index: SQLite unique index; memory backend removes the stale entry on rotation and refuses collisions")
     rep.not_decided = "equality of record and MLS state after every step of generated histories"
     syncs = sync_fns(prog)
     clause_sync_after_merge(prog, rep, syncs)
+    clause_no_stale_overwrite(prog, rep, syncs)
     clause_wiring(prog, rep, syncs)
     clause_routing(prog, rep)
     clause_index(prog, rep, sch)
